@@ -1,5 +1,5 @@
 import StraxModel.Model.Selection
-import StraxModel.Lemmas.ChunkAlg
+import StraxModel.Lemmas.ChunkAlgSplit
 /-
   Helper lemmas for property C10 (theory T10 Selection).  Core Lean only.
 
@@ -305,4 +305,431 @@ theorem applyTimeRange_ok {c : Chunk} (r : Range) (hc : ChunkOK c) (hp : Plain c
   simp only
   rw [h2]
   exact ⟨c2, rfl, d1, d2, by rw [hd1, hd2]; simp, hx1, hx2⟩
+/-! ### Part 3: selections over chunk lists -/
+
+def RealMode (m : Mode) : Prop := m = .fullyContained ∨ m = .touching
+instance (m : Mode) : Decidable (RealMode m) := by unfold RealMode; infer_instance
+
+theorem inRange_left_false {m : Mode} {r : Range} {x : Row} (hm : RealMode m) (hpos : x.time < x.endt)
+    (h : x.endt ≤ r.1) : inRange m r x = false := by
+  rcases hm with rfl | rfl <;> simp [inRange] <;> omega
+
+theorem inRange_right_false {m : Mode} {r : Range} {x : Row} (hm : RealMode m) (hpos : x.time < x.endt)
+    (h : r.2 ≤ x.time) : inRange m r x = false := by
+  rcases hm with rfl | rfl <;> simp [inRange] <;> omega
+
+theorem select_append (m : Mode) (r : Range) (p : Row → Bool) (a b : List Row) :
+    select m r p (a ++ b) = select m r p a ++ select m r p b := by
+  simp [select]
+
+theorem select_nil_of {m : Mode} {r : Range} {p : Row → Bool} {l : List Row}
+    (h : ∀ x ∈ l, inRange m r x = false) : select m r p l = [] := by
+  simp only [select, List.filter_eq_nil_iff]
+  intro x hx
+  simp [h x hx]
+
+theorem select_trim {m : Mode} {r : Range} {p : Row → Bool} {d1 mid d2 : List Row} (hm : RealMode m)
+    (hpos : ∀ x ∈ d1 ++ mid ++ d2, x.time < x.endt)
+    (h1 : ∀ x ∈ d1, x.endt ≤ r.1) (h2 : ∀ x ∈ d2, r.2 ≤ x.time) :
+    select m r p (d1 ++ mid ++ d2) = select m r p mid := by
+  rw [select_append, select_append,
+    select_nil_of (fun x hx => inRange_left_false hm (hpos x (by simp [hx])) (h1 x hx)),
+    select_nil_of (fun x hx => inRange_right_false hm (hpos x (by simp [hx])) (h2 x hx))]
+  simp
+
+theorem select_pruned {m : Mode} {r : Range} {p : Row → Bool} {c : Chunk} (hm : RealMode m)
+    (hc : ChunkOK c) (hp : pruned c r = true) : select m r p c.rows = [] := by
+  apply select_nil_of
+  intro x hx
+  have hin := hc.rows_in x hx
+  simp only [pruned, Bool.or_eq_true, decide_eq_true_eq] at hp
+  rcases hp with hp | hp
+  · exact inRange_left_false hm hin.2.1 (by omega)
+  · exact inRange_right_false hm hin.2.1 (by omega)
+
+theorem select_applyTimeRange {m : Mode} {r : Range} {p : Row → Bool} {c : Chunk} (hm : RealMode m)
+    (hc : ChunkOK c) (hp : Plain c) :
+    ∃ c', applyTimeRange c r = .ok c' ∧ select m r p c'.rows = select m r p c.rows := by
+  obtain ⟨c', h, d1, d2, hrows, h1, h2⟩ := applyTimeRange_ok r hc hp
+  refine ⟨c', h, ?_⟩
+  rw [hrows]
+  symm
+  apply select_trim hm _ h1 h2
+  intro x hx
+  rw [← hrows] at hx
+  exact (hc.rows_in x hx).2.1
+
+theorem mapE_cons {α β : Type} (f : α → Except Err β) (a : α) (l : List α) :
+    mapE f (a :: l) = match f a with
+      | .error e => .error e
+      | .ok b => match mapE f l with
+        | .error e => .error e
+        | .ok bs => .ok (b :: bs) := rfl
+
+theorem allRows_cons (c : Chunk) (cs : List Chunk) : allRows (c :: cs) = c.rows ++ allRows cs := by
+  simp [allRows]
+
+/-- the loader on a list of law-abiding plain chunks: total, keeps exactly the selected rows, and yields
+no chunk iff every chunk was pruned -/
+theorem loadRange_spec (s : List Chunk) (r : Range) (hs : ∀ c ∈ s, ChunkOK c ∧ Plain c) :
+    ∃ cs, loadRange s r = .ok cs ∧
+      (∀ m p, RealMode m → cs.flatMap (fun c => select m r p c.rows) = select m r p (allRows s)) ∧
+      (cs = [] ↔ ∀ c ∈ s, pruned c r = true) := by
+  induction s with
+  | nil => exact ⟨[], rfl, by intro m p _; simp [allRows, select], by simp⟩
+  | cons c rest ih =>
+    obtain ⟨cs, hload, hsel, hnil⟩ := ih (fun c hc => hs c (by simp [hc]))
+    obtain ⟨hc, hp⟩ := hs c (by simp)
+    unfold loadRange at hload ⊢
+    by_cases hpr : pruned c r = true
+    · refine ⟨cs, ?_, ?_, ?_⟩
+      · simpa [List.filter, hpr] using hload
+      · intro m p hm
+        rw [allRows_cons, select_append, select_pruned hm hc hpr, hsel m p hm]
+        simp
+      · rw [hnil]; simp [hpr]
+    · obtain ⟨c', hc', -⟩ := select_applyTimeRange (m := .touching) (r := r) (p := fun _ => true) (Or.inr rfl) hc hp
+      refine ⟨c' :: cs, ?_, ?_, ?_⟩
+      · have : List.filter (fun c => !pruned c r) (c :: rest) = c :: List.filter (fun c => !pruned c r) rest := by
+          simp [List.filter, hpr]
+        rw [this, mapE_cons, hc']
+        simp only
+        rw [hload]
+      · intro m p hm
+        obtain ⟨c'', hc'', hsel'⟩ := select_applyTimeRange (m := m) (r := r) (p := p) hm hc hp
+        rw [hc'] at hc''
+        injection hc'' with hc''
+        subst hc''
+        rw [allRows_cons, select_append, ← hsel', ← hsel m p hm]
+        simp
+      · simp [hpr]
+
+
+/-! ### from the decidable hypotheses to the `Prop` forms used above -/
+
+theorem plain_of_plainB {c : Chunk} (h : plainB c = true) : Plain c := by
+  unfold plainB at h
+  simp only [Bool.and_eq_true, Option.isNone_iff_eq_none] at h
+  refine ⟨h.1, ?_⟩
+  have h2 := h.2
+  split at h2
+  · rename_i rid hr
+    exact ⟨rid, c.start, c.stop, hr, by simpa using h2⟩
+  · cases h2
+
+theorem sorted_of_flatMap {cs : List Chunk} (h : SortedByTime (cs.flatMap (·.rows))) :
+    ∀ c ∈ cs, SortedByTime c.rows := by
+  induction cs with
+  | nil => simp
+  | cons c rest ih =>
+    simp only [List.flatMap_cons] at h
+    intro x hx
+    simp at hx
+    rcases hx with rfl | hx
+    · exact h.append_left
+    · exact ih h.append_right x hx
+
+theorem chunks_of_lawAbiding {cs : List Chunk} (h : LawAbiding cs) : ∀ c ∈ cs, ChunkOK c ∧ Plain c := by
+  unfold LawAbiding lawAbidingB at h
+  simp only [Bool.and_eq_true, List.all_eq_true] at h
+  obtain ⟨⟨⟨hok, -⟩, hsorted⟩, hplain⟩ := h
+  have hsorted' := sorted_of_flatMap ((sortedByTimeB_iff _).1 hsorted)
+  intro c hc
+  refine ⟨?_, plain_of_plainB (hplain c hc)⟩
+  have := hok c hc
+  unfold chunkOKB at this
+  simp only [Bool.and_eq_true, decide_eq_true_eq, List.all_eq_true] at this
+  exact ⟨this.1.1, this.1.2, fun x hx => ⟨(this.2 x hx).1.1, (this.2 x hx).1.2, (this.2 x hx).2⟩, hsorted' c hc⟩
+
+theorem adjacent_of_lawAbiding {cs : List Chunk} (h : LawAbiding cs) : adjacentB cs = true := by
+  unfold LawAbiding lawAbidingB at h
+  simp only [Bool.and_eq_true] at h
+  exact h.1.1.2
+
+/-! ### a proper range sees no chunk iff it is disjoint from the span of the layout -/
+
+/-- end of the last chunk -/
+def lastStop : Chunk → List Chunk → Int
+  | c, [] => c.stop
+  | _, c2 :: rest => lastStop c2 rest
+
+theorem span_cons (c : Chunk) (rest : List Chunk) : span (c :: rest) = some (c.start, lastStop c rest) := by
+  induction rest generalizing c with
+  | nil => simp [span, lastStop]
+  | cons c2 rest ih =>
+    have := ih c2
+    simp only [span, lastStop, Option.some.injEq, Prod.mk.injEq, true_and] at this ⊢
+    rw [← this]
+    simp
+
+theorem exists_unpruned {c : Chunk} {rest : List Chunk} {r : Range} (hadj : adjacentB (c :: rest) = true)
+    (hr : r.1 < r.2) (h1 : c.start < r.2) (h2 : r.1 < lastStop c rest) :
+    ∃ x ∈ c :: rest, pruned x r = false := by
+  induction rest generalizing c with
+  | nil =>
+    refine ⟨c, by simp, ?_⟩
+    simp only [lastStop] at h2
+    simp [pruned]; omega
+  | cons c2 rest ih =>
+    simp only [adjacentB, Bool.and_eq_true, decide_eq_true_eq] at hadj
+    by_cases hp : pruned c r = false
+    · exact ⟨c, by simp, hp⟩
+    · have hp' : pruned c r = true := by
+        cases hh : pruned c r
+        · exact absurd hh hp
+        · rfl
+      simp only [pruned, Bool.or_eq_true, decide_eq_true_eq] at hp'
+      have hstop : c.stop ≤ r.1 := by omega
+      obtain ⟨x, hx, hpx⟩ := ih hadj.2 (by omega) (by simpa [lastStop] using h2)
+      exact ⟨x, by simp at hx ⊢; right; exact hx, hpx⟩
+
+theorem bounds_of_chunks {c : Chunk} {rest : List Chunk} (hadj : adjacentB (c :: rest) = true)
+    (hok : ∀ x ∈ c :: rest, x.start ≤ x.stop) :
+    ∀ x ∈ c :: rest, c.start ≤ x.start ∧ x.stop ≤ lastStop c rest := by
+  induction rest generalizing c with
+  | nil => intro x hx; simp at hx; subst hx; simp [lastStop]
+  | cons c2 rest ih =>
+    simp only [adjacentB, Bool.and_eq_true, decide_eq_true_eq] at hadj
+    have hc := hok c (by simp)
+    have hc2 := hok c2 (by simp)
+    have := ih hadj.2 (fun x hx => hok x (by simp at hx ⊢; right; exact hx))
+    intro x hx
+    simp only [List.mem_cons] at hx
+    rcases hx with rfl | hx
+    · have h2 := this c2 (by simp)
+      simp only [lastStop]
+      omega
+    · have h2 := this x (by simpa using hx)
+      simp only [lastStop]
+      omega
+
+theorem all_pruned_iff {s : List Chunk} {r : Range} {S E : Int} (hs : LawAbiding s) (hspan : span s = some (S, E))
+    (hr : r.1 < r.2) : (∀ c ∈ s, pruned c r = true) ↔ (r.2 ≤ S ∨ E ≤ r.1) := by
+  cases s with
+  | nil => simp [span] at hspan
+  | cons c rest =>
+    rw [span_cons] at hspan
+    injection hspan with hspan
+    injection hspan with hS hE
+    subst hS hE
+    have hadj := adjacent_of_lawAbiding hs
+    have hchunks := chunks_of_lawAbiding hs
+    constructor
+    · intro hall
+      apply Classical.byContradiction
+      intro hno
+      obtain ⟨x, hx, hpx⟩ := exists_unpruned hadj hr (by omega) (by omega)
+      rw [hall x hx] at hpx
+      cases hpx
+    · intro h x hx
+      have hb := bounds_of_chunks hadj (fun y hy => (hchunks y hy).1.start_le) x hx
+      simp only [pruned, Bool.or_eq_true, decide_eq_true_eq]
+      omega
+
+/-! ### `apply_selection` is a fixed row filter plus a fixed column list, or a fixed error -/
+
+/-- the row filter `apply_selection` applies (for the modes that do not raise) -/
+def keepFn (s : Sel) (r : Option Range) : Row → Bool := fun x =>
+  (match r with
+   | none => true
+   | some r => inRange s.mode r x) && s.predFn x
+
+theorem projectCols_error {fields keep drop : List String} {e : Err}
+    (h : projectCols fields keep drop = .error e) : e = .valueError := by
+  unfold projectCols at h
+  grind
+
+theorem filter_flatten_map {α : Type} (f : Row → Bool) (cols : α) (l : List (List Row)) :
+    (l.map (fun rows => (rows.filter f, cols))).flatMap (·.1) = l.flatten.filter f := by
+  induction l with
+  | nil => rfl
+  | cons a l ih => simp [List.flatMap_cons, List.filter_append, ih]
+
+theorem filter_flatten_rows (f : Row → Bool) (cs : List Chunk) :
+    (cs.map (·.rows)).flatten.filter f = cs.flatMap (fun c => c.rows.filter f) := by
+  induction cs with
+  | nil => rfl
+  | cons a l ih => simp [List.flatMap_cons, List.filter_append, ih]
+
+theorem applySelection_shape (fields : List String) (s : Sel) (r : Option Range) :
+    (∀ rows, applySelection fields s r rows = .error .valueError) ∨
+    (∃ cols, ∀ rows, applySelection fields s r rows = .ok (rows.filter (keepFn s r), cols)) := by
+  unfold applySelection keepFn Sel.predFn
+  by_cases hb : (!s.drop.isEmpty && !s.keep.isEmpty) = true
+  · left; intro rows; simp [hb]
+  · cases hcols : projectCols fields s.keep s.drop with
+    | error e =>
+      left; intro rows
+      have he : e = .valueError := projectCols_error hcols
+      subst he
+      simp only [hb]
+      cases r with
+      | none => simp
+      | some r => cases hm : s.mode <;> simp
+    | ok cols =>
+      cases r with
+      | none =>
+        right; refine ⟨cols, ?_⟩; intro rows
+        cases hp : s.pred
+        · simp only [hb, Bool.false_eq_true, if_false]
+          congr 2
+          exact (List.filter_eq_self.2 (by simp)).symm
+        · simp [hb]
+      | some r =>
+        cases hm : s.mode
+        case unknown => left; intro rows; simp [hb]
+        all_goals
+          right; refine ⟨cols, ?_⟩; intro rows
+          cases hp : s.pred <;> simp [hb, List.filter_filter, Bool.and_comm]
+
+theorem mapE_ok_of {α β : Type} {f : α → Except Err β} {g : α → β} (h : ∀ a, f a = .ok (g a)) (l : List α) :
+    mapE f l = .ok (l.map g) := by
+  induction l with
+  | nil => rfl
+  | cons a l ih => rw [mapE_cons, h a]; simp only; rw [ih]; rfl
+
+theorem mapE_error_of {α β : Type} {f : α → Except Err β} {e : Err} (h : ∀ a, f a = .error e) (a : α) (l : List α) :
+    mapE f (a :: l) = .error e := by
+  rw [mapE_cons, h a]
+
+/-- selecting chunk by chunk and concatenating = selecting once on the concatenated rows: rows,
+column list and error alike (`get_array` sees at least one chunk) -/
+theorem collect_eq (fields : List String) (s : Sel) (r : Option Range) (c : List Row) (chunks : List (List Row)) :
+    collect fields s r (c :: chunks) = applySelection fields s r (c :: chunks).flatten := by
+  unfold collect
+  rcases applySelection_shape fields s r with herr | ⟨cols, hok⟩
+  · rw [mapE_error_of herr, herr]
+  · rw [mapE_ok_of (g := fun rows => (rows.filter (keepFn s r), cols)) hok, hok]
+    have := filter_flatten_map (keepFn s r) cols (c :: chunks)
+    simp only [List.map_cons] at this ⊢
+    rw [this]
+
+theorem collect_nil (fields : List String) (s : Sel) (r : Range) :
+    collect fields s (some r) [] = .error .valueError := rfl
+
+theorem collect_nil_none (fields : List String) (s : Sel) :
+    collect fields s none [] = .error .dataCorrupted := rfl
+
+theorem keepFn_eq_select (s : Sel) (r : Range) (rows : List Row) :
+    rows.filter (keepFn s (some r)) = select s.mode r s.predFn rows := rfl
+
+/-- `get_array` of a law-abiding stored layout with a time range -/
+theorem getArray_range {fields : List String} {s : List Chunk} {a : TimeArgs} {sel : Sel} {r : Range}
+    (hs : LawAbiding s) (hne : s ≠ []) (hm : RealMode sel.mode) (ha : toAbsolute s a = .ok (some r)) :
+    getArray fields s a sel =
+      if s.all (fun c => pruned c r) then .error .valueError
+      else applySelection fields sel (some r) (allRows s) := by
+  obtain ⟨cs, hload, hsel, hnil⟩ := loadRange_spec s r (chunks_of_lawAbiding hs)
+  unfold getArray loader
+  rw [ha]
+  have : s.isEmpty = false := by cases s <;> simp_all
+  simp only [this, Bool.false_eq_true, if_false, hload]
+  cases cs with
+  | nil =>
+    have hall := hnil.1 rfl
+    have : s.all (fun c => pruned c r) = true := by simpa [List.all_eq_true] using hall
+    simp [this, collect_nil]
+  | cons c cs =>
+    have hnot : ¬ (s.all (fun c => pruned c r) = true) := by
+      intro hall
+      have := hnil.2 (by simpa [List.all_eq_true] using hall)
+      cases this
+    simp only [List.map_cons, hnot, if_false, Bool.false_eq_true]
+    rw [collect_eq]
+    rcases applySelection_shape fields sel (some r) with herr | ⟨cols, hok⟩
+    · rw [herr, herr]
+    · rw [hok, hok, ← List.map_cons, filter_flatten_rows, keepFn_eq_select, ← hsel sel.mode sel.predFn hm]
+      rfl
+
+/-- `get_array` of a stored layout without any time argument -/
+theorem getArray_norange {fields : List String} {s : List Chunk} {a : TimeArgs} {sel : Sel}
+    (hne : s ≠ []) (ha : toAbsolute s a = .ok none) :
+    getArray fields s a sel = applySelection fields sel none (allRows s) := by
+  unfold getArray loader
+  rw [ha]
+  cases s with
+  | nil => exact absurd rfl hne
+  | cons c cs =>
+    simp only [List.isEmpty_cons, Bool.false_eq_true, if_false, List.map_cons]
+    rw [collect_eq]
+    congr 1
+
+/-! ### Part 4: validity of the selection arguments, time arguments -/
+
+/-- keep / drop lists are acceptable for these fields (not both, no unknown kept column) -/
+def colsValidB (fields : List String) (sel : Sel) : Bool :=
+  match projectCols fields sel.keep sel.drop with
+  | .ok _ => true
+  | .error _ => false
+
+theorem projectCols_both {fields keep drop : List String} (h : (!drop.isEmpty && !keep.isEmpty) = true) :
+    projectCols fields keep drop = .error .valueError := by
+  unfold projectCols
+  simp [h]
+
+theorem applySelection_ok_of {fields : List String} {sel : Sel} (r : Option Range)
+    (hc : colsValidB fields sel = true) (hm : sel.mode ≠ .unknown) :
+    ∃ cols, projectCols fields sel.keep sel.drop = .ok cols ∧
+      ∀ rows, applySelection fields sel r rows = .ok (rows.filter (keepFn sel r), cols) := by
+  unfold colsValidB at hc
+  split at hc
+  · rename_i cols hcols
+    refine ⟨cols, hcols, ?_⟩
+    rcases applySelection_shape fields sel r with herr | ⟨cols', hok⟩
+    · exfalso
+      have hb : ¬ ((!sel.drop.isEmpty && !sel.keep.isEmpty) = true) := by
+        intro hb
+        rw [projectCols_both hb] at hcols
+        cases hcols
+      have := herr []
+      unfold applySelection at this
+      simp only [hb, hcols] at this
+      cases r with
+      | none => cases hp : sel.pred <;> simp [hp] at this
+      | some r =>
+        cases hmode : sel.mode
+        case unknown => exact hm hmode
+        all_goals (cases hp : sel.pred <;> simp [hp, hmode] at this)
+    · intro rows
+      have h1 := hok []
+      unfold applySelection at h1
+      have hb : ¬ ((!sel.drop.isEmpty && !sel.keep.isEmpty) = true) := by
+        intro hb
+        rw [projectCols_both hb] at hcols
+        cases hcols
+      simp only [hb, hcols] at h1
+      have : cols' = cols := by
+        cases r with
+        | none => cases hp : sel.pred <;> simp [hp] at h1 <;> exact h1.symm
+        | some r =>
+          cases hmode : sel.mode
+          case unknown => exact absurd hmode hm
+          all_goals (cases hp : sel.pred <;> simp [hp, hmode] at h1 <;> exact h1.symm)
+      rw [hok rows, this]
+  · cases hc
+
+theorem runStart_of_span {s : List Chunk} {S E : Int} (h : span s = some (S, E)) :
+    runStart s = .ok ((S / nsPerS) * nsPerS) := by
+  cases s with
+  | nil => simp [span] at h
+  | cons c rest =>
+    rw [span_cons] at h
+    injection h with h
+    injection h with h1 h2
+    subst h1
+    rfl
+
+theorem toAbsolute_congr {s1 s2 : List Chunk} {S E : Int} (a : TimeArgs) (h1 : span s1 = some (S, E))
+    (h2 : span s2 = some (S, E)) : toAbsolute s1 a = toAbsolute s2 a := by
+  unfold toAbsolute
+  rw [runStart_of_span h1, runStart_of_span h2]
+
+theorem ne_nil_of_span {s : List Chunk} {S E : Int} (h : span s = some (S, E)) : s ≠ [] := by
+  intro hs; subst hs; simp [span] at h
+
+theorem getArray_error_toAbsolute {fields : List String} {s : List Chunk} {a : TimeArgs} {sel : Sel} {e : Err}
+    (h : toAbsolute s a = .error e) : getArray fields s a sel = .error e := by
+  unfold getArray
+  rw [h]
+
 end Strax.Selection
